@@ -1,4 +1,4 @@
-\* emission: every edge of the histories of up to 4 actions (thorough), every state with its observation; laws checked as well
+\* thorough: every history of up to 4 actions; one printed line per explored edge (behaviour + observation); all laws
 CONSTANTS CompArea <- McCompArea  Holds <- McHolds  NNuc = 4  AW <- McAW  NameRev = FALSE  TempNuc = 2
   Scenarios <- McScenarios  ScnOf <- McScnOf  MaxLevel = 5
 INIT Init
